@@ -17,7 +17,9 @@ RULE = ("All suites run the library built from /repo with AddressSanitizer + Und
         "a template (create, generate key / pair for every mechanism, unwrap, the derivations, copy, set, search) with 27..200 entries; K17-keys: key objects of every class whose components are "
         "empty, zero, one byte, random, over-long or another curve's, used in every operation a key of that class can start; K17-files: damaged token directories (length fields "
         "of 2^63, kinds and types replaced, flips, cuts, garbage, stray files; structured damage that keeps the file well-formed: one attribute grown, shrunk, retyped, given another kind, duplicated or dropped; token.object, generation and lock files too) reopened by C_Initialize and walked; while "
-        "token.object is intact the number of objects found is compared with the verdicts of the Lean decoder (loadcount); K17-conf: damaged softhsm2.conf contents. "
+        "token.object is intact the number of objects found is compared with the verdicts of the Lean decoder (loadcount); K17-conf: damaged softhsm2.conf contents, C_Initialize without locking, with OS locking and with application mutex callbacks whose handles are table indices "
+        "(a failed C_Initialize followed by one of another flavour; the callbacks count handles they never issued and locks of a locked mutex); K17-truncations: an object file with an "
+        "attribute map and a mechanism set cut to EVERY length, opened under those callbacks. "
         "Every hostile history ends with calls of the entry points no generator reaches (C_GetInfo, C_GetFunctionList, C_GetSlotInfo, C_GetTokenInfo, C_WaitForSlotEvent, "
         "C_Get/SetOperationState, C_Sign/VerifyRecover(Init), the four dual-function updates, C_GetFunctionStatus, C_CancelFunction, NULL output pointers of the query calls) "
         "so that all 68 entry points are exercised. A violation is a sanitizer report, a signal, an exit() from inside the library, a write behind an announced buffer, or a loader/decoder disagreement.")
@@ -41,7 +43,8 @@ def crash_sig(report):
 
 
 def direct(r):
-    out = []
+    from ..ksuites import mxstat_direct
+    out = list(mxstat_direct(r))
     parts = CRASH_RE.split(r.stderr)
     ops = [l for l in r.transcript.splitlines() if l and not l.startswith("=")]
     lines = r.transcript.splitlines()
@@ -83,7 +86,15 @@ def run_k(ctx, kres):
     env2 = {"VERIF_SANITIZER_SIGNALS": "1"}
     v += k_suite(ctx, kres, "K17-files", [Trace("files%d" % i, gen.mutated_files_history(ctx.seed * 6029 + i, 5 if q else 8), "asan", env=env2) for i in range(n)], in_projection, sig_of=sig_of, direct=direct, shrink_budget=60)
     n = 30 if q else 600
-    v += k_suite(ctx, kres, "K17-conf", [Trace("conf%d" % i, gen.conf_history(ctx.seed * 6037 + i), "asan", env=env2) for i in range(n)], lambda m: False, direct=direct, shrink_budget=60)
+    from .. import ksuites
+    corpus = [Trace(t.name, t.ops, "asan", env=env2) for t in ksuites.corpus_traces("C17")]      # minimised past failures run first
+    v += k_suite(ctx, kres, "K17-conf", corpus + [Trace("conf%d" % i, gen.conf_history(ctx.seed * 6037 + i), "asan", env=env2) for i in range(n)], lambda m: False, direct=direct, shrink_budget=60)
+    # every truncation of an object file holding an attribute map and a mechanism set, opened with application mutexes (index handles, relock counted)
+    from .. import gen2
+    step = 150 if q else 60
+    v += k_suite(ctx, kres, "K17-truncations", [Trace("trunc%d" % lo, gen2.c17_truncation_matrix(lo, lo + step), "asan", env=env2) for lo in range(0, 1200, step)] +
+                 ([] if q else [Trace("trunc-plain%d" % lo, gen2.c17_truncation_matrix(lo, lo + 150, "init"), "asan", env=env2) for lo in range(0, 1200, 150)]),
+                 lambda m: False, direct=direct, shrink_budget=40)
     # unit level: the configuration loader on arbitrary file bytes against its Lean model (total function; Props/C17 theorems are about it)
     from .. import pure
     v += pure.run_group(ctx, kres, "K17-pure-confloader", "conf", 600 if q else 12000)
